@@ -189,4 +189,74 @@ class Skolem(Suite):
         return msg.split(":")[0]
 
 
-SUITES = {"isomorphism": Isomorphism(), "skolem": Skolem()}
+class LargeSymmetric(Suite):
+    """structures too large for brute force: isomorphism with a relabelled copy holds by construction"""
+    chunk = 2
+
+    @staticmethod
+    def families():
+        def cyc(n, off=0):
+            return [(f"b{off + i}", "p", f"b{off + (i + 1) % n}") for i in range(n)]
+
+        def undirected(edges):
+            return [(f"b{a}", "p", f"b{b}") for a, b in edges] + [(f"b{b}", "p", f"b{a}") for a, b in edges]
+        petersen = [(i, (i + 1) % 5) for i in range(5)] + [(5 + i, 5 + (i + 2) % 5) for i in range(5)] + [(i, i + 5) for i in range(5)]
+        prism5 = [(i, (i + 1) % 5) for i in range(5)] + [(5 + i, 5 + (i + 1) % 5) for i in range(5)] + [(i, i + 5) for i in range(5)]
+        cube = [(a, b) for a in range(8) for b in range(8) if a < b and bin(a ^ b).count("1") == 1]
+        k44 = [(a, 4 + b) for a in range(4) for b in range(4)]
+        cube_twin = [(i, (i + 1) % 8) for i in range(8)] + [(i, (i + 4) % 8) for i in range(4)]       # Wagner graph: 3-regular, 8 nodes
+        return {
+            "petersen": undirected(petersen), "pentagonal-prism": undirected(prism5),
+            "c3+c4+c5": cyc(3) + cyc(4, 3) + cyc(5, 7), "c12": cyc(12), "c6+c6": cyc(6) + cyc(6, 6),
+            "cube": undirected(cube), "wagner": undirected(cube_twin), "k4,4": undirected(k44),
+            "three-triangles": cyc(3) + cyc(3, 3) + cyc(3, 6), "c9": cyc(9),
+        }
+
+    NON_ISO = [("petersen", "pentagonal-prism"), ("c3+c4+c5", "c12"), ("c3+c4+c5", "c6+c6"), ("c12", "c6+c6"), ("cube", "wagner"),
+               ("three-triangles", "c9")]
+
+    def bound(self, tier):
+        return ("10 vertex-transitive / regular structures of 8-12 blank nodes (Petersen graph, pentagonal prism, cube, Wagner "
+                "graph, K4,4, C12, C6+C6, C3+C4+C5, three triangles, C9): each against 12 (thorough 40) randomly relabelled and "
+                "re-ordered copies of itself - isomorphic, equal canonical graphs, empty graph_diff; 6 pairs with equal degree "
+                "sequences that are NOT isomorphic - isomorphic() is False")
+
+    def enumerate(self, tier):
+        n = 12 if tier == "quick" else 40
+        for name in self.families():
+            for k in range(n):
+                yield {"fam": name, "k": k}
+        for a, b in self.NON_ISO:
+            yield {"pair": [a, b]}
+
+    def check(self, case):
+        from rdflib.compare import isomorphic, to_canonical_graph, graph_diff, to_isomorphic
+        F = self.families()
+        if "pair" in case:
+            a, b = case["pair"]
+            if isomorphic(build(F[a]), build(F[b])):
+                return f"false-positive: isomorphic({a}, {b}) is True for non-isomorphic regular graphs"
+            return None
+        t = F[case["fam"]]
+        rnd = random.Random(1000 * case["k"] + len(t))
+        bs = sorted({x for s, _, o in t for x in (s, o)})
+        perm = bs[:]
+        rnd.shuffle(perm)
+        g1 = build(t, None, random.Random(case["k"]))
+        g2 = build(t, dict(zip(bs, perm)), rnd)
+        if not isomorphic(g1, g2):
+            return f"relabel: {case['fam']}: a relabelled, re-ordered copy is reported as not isomorphic (trial {case['k']})"
+        if to_isomorphic(g1) != to_isomorphic(g2):
+            return f"to_isomorphic-eq: {case['fam']}: to_isomorphic graphs of two copies differ (trial {case['k']})"
+        if set(to_canonical_graph(g1)) != set(to_canonical_graph(g2)):
+            return f"canonical-relabel: {case['fam']}: canonical graphs of two copies differ (trial {case['k']})"
+        both, first, second = graph_diff(g1, g2)
+        if len(first) or len(second):
+            return f"graph_diff-isomorphic-inputs: {case['fam']}: copies have a non-empty difference ({len(first)}/{len(second)})"
+        return None
+
+    def classify(self, case, msg):
+        return msg.split(":")[0]
+
+
+SUITES = {"isomorphism": Isomorphism(), "skolem": Skolem(), "large-symmetric": LargeSymmetric()}
